@@ -395,10 +395,15 @@ pub fn run_c09(cfg: &Cfg, log: &mut Log) {
             }
             causes.push(("empty-file".into(), Some(vec![])));
             causes.push(("missing-file".into(), None));
+            // an I/O error while the file BODY is read: a directory opens and reports a length, but read fails (EISDIR)
+            causes.push(("directory-as-file".into(), None));
             for (cause, content) in causes {
-                let path = dir.join("bad.bin");
+                let path = if cause == "directory-as-file" { dir.join("bad.dir") } else { dir.join("bad.bin") };
                 match &content {
                     Some(c) => std::fs::write(&path, c).unwrap(),
+                    None if cause == "directory-as-file" => {
+                        let _ = std::fs::create_dir_all(&path);
+                    }
                     None => {
                         let _ = std::fs::remove_file(&path);
                     }
